@@ -1,14 +1,22 @@
+import re
 from props import only  # noqa: F401
+
+# default rule (a dump shows a bitset chunk or >= 2 chunks) + 64-bit: a tdump shows >= 2 partitions
+_NT = re.compile(r"\| nc=\d+ na=\d+ nb=[1-9]|\| nc=([2-9]|\d\d+) |\| parts=\[[^\]]*,")
 
 RULE = ("cases = corpus + seeded cases (harness gen, splitmix64 from VERIF_SEED and case index): values from C01-style "
         "mutation histories (with 4096 steering), from decoded conformant streams, and tiny/empty sets; each followed by "
         "ser / ser_size / spec_encode (independent Rust reference encoder vs Lean Spec.encode vs crate) and a decode of "
         "the crate's own bytes with both decoders; non-trivial = some dump shows a bitset chunk or >= 2 chunks; "
-        "distinct by SHA-1 of the ops")
+        "distinct by SHA-1 of the ops. 64-bit half (profile C05T): treemaps with 0-4 partitions (keys from {0,1,3,4,2^32-1}) "
+        "from short histories or decoded conformant portable streams; tser / tser_size / tspec_encode (independent Rust "
+        "encoder vs Lean Spec.encode64 vs crate), decode of own bytes with both decoders, teq + expect true; non-trivial = "
+        ">= 2 partitions")
 
 CFG = {
-    "gen_profiles": ["C05"],
-    "cases": {"quick": 400, "thorough": 4000},
+    "gen_profiles": ["C05", "C05T"],
+    "cases": {"quick": 800, "thorough": 8000},
+    "nontrivial": lambda body, mout: any(_NT.search(o) for o in mout),
     "compare": "full",
     "rule": RULE,
     "targets": {
@@ -21,6 +29,15 @@ CFG = {
         "checked decode of own bytes": r"^deser_prefix chk .* => ok rest=0 eq=true",
         "unchecked decode of own bytes": r"^deser_prefix unchk .* => ok rest=0 eq=true",
         "value obtained from a run-encoded stream": r"^deser chk b\d+ hex:3b30.* => ok",
+        "64-bit: serialisation of the empty treemap": r"^tser t\d+ => n=8 hex:0000000000000000$",
+        "64-bit: short serialisation compared byte for byte": r"^tser t\d+ => n=\d+ hex:0[1-4]00000000000000",
+        "64-bit: long serialisation compared by hash": r"^tser t\d+ => n=\d+ sh=",
+        "64-bit: size of a value with >= 3 partitions": r"^tdump .*parts=\[[^\]]*,[^\]]*,",
+        "64-bit: partition key u32::MAX": r"^tdump .*parts=\[[^\]]*4294967295:",
+        "64-bit: partition with a bitset chunk (> 8 KiB)": r"^tser_size t\d+ => (8[2-9]\d\d|9\d\d\d|\d{5,})$",
+        "64-bit: checked decode of own bytes": r"^tdeser_prefix chk .* => ok rest=0 eq=true",
+        "64-bit: unchecked decode of own bytes": r"^tdeser_prefix unchk .* => ok rest=0 eq=true",
+        "64-bit: value decoded from a stream with an empty bucket": r"^note parts=.*empty-bucket",
     },
     "gaps": [
         'C05_size, C05_decode (round trip through both decoders, both build configurations, with arbitrary trailing bytes) are proved in full for BitmapWF values',
